@@ -125,7 +125,16 @@ RowTime(F, r) ==
   THEN UnixOfDay(DayFromYYYYMMDD(Num(Cell(F, r, "date")))) + (IF HasCol(F, "hour") THEN Num(Cell(F, r, "hour")) * 3600 ELSE 0)
   ELSE IF HasCol(F, "unixtime") THEN Num(Cell(F, r, "unixtime")) ELSE 0
 RowLead(F, r) == IF HasCol(F, "leadtime") THEN Cell(F, r, "leadtime") ELSE Zero
-RowId(F, r)   == Num(Cell(F, r, "id"))                 \* files without an id column: see LocationsNoId
+\* Files WITHOUT a location / id column (LocationsNoId): the sites are the distinct (lat, lon, elev) triples of the rows (an absent
+\* column or a missing value reads 0), however close together they lie.  Which numbers the program gives such sites is not
+\* documented; the specification names a site by the rank of its triple in lexicographic order, and the conformance step matches
+\* the sites it reads to these by their coordinates (the numbers themselves are not compared).
+MetaOrZero(F, r, cls) == IF HasCol(F, cls) THEN (LET v == Cell(F, r, cls) IN IF IsNaN(v) THEN Zero ELSE v) ELSE Zero
+RowSite(F, r) == <<MetaOrZero(F, r, "lat"), MetaOrZero(F, r, "lon"), MetaOrZero(F, r, "elev")>>
+SiteLt(a, b) == Lt(a[1], b[1]) \/ (a[1] = b[1] /\ (Lt(a[2], b[2]) \/ (a[2] = b[2] /\ Lt(a[3], b[3]))))
+LocationsNoId(F) == {RowSite(F, r) : r \in DOMAIN F.rows}
+SiteRank(F, s) == 1 + Cardinality({q \in LocationsNoId(F) : SiteLt(q, s)})
+RowId(F, r)   == IF HasCol(F, "id") THEN Num(Cell(F, r, "id")) ELSE SiteRank(F, RowSite(F, r))
 
 Rows(F) == DOMAIN F.rows
 \* the coordinates of every row, computed once
@@ -170,6 +179,9 @@ Parse(F) ==
    other |-> [nm \in {F.header[k] : k \in Col(F, "other")} |-> FieldOf(CHOOSE k \in Col(F, "other") : F.header[k] = nm)],
    variable |-> [name |-> MetaValue(F, "variable"), units |-> MetaValue(F, "units"), x0 |-> MetaValue(F, "x0"), x1 |-> MetaValue(F, "x1")]]
 
+\* Only the '# x0:' / '# x1:' lines give the variable a discrete mass: without the line there is none ("(default)" stands for "not set"
+\* there; for the name and the units it stands for a default text that is not compared), whatever the variable is called.
+NoMassWithoutLine(F) == \A key \in {"x0", "x1"} : (~\E m \in DOMAIN F.meta : F.meta[m].key = key) => Parse(F).variable[key] = "(default)"
 \* ---- lemmas: the parsed Input does not depend on the order of columns or of rows ----
 PermuteCols(F, perm) == [F EXCEPT !.header = [k \in DOMAIN F.header |-> F.header[perm[k]]],
                                   !.rows = [r \in DOMAIN F.rows |-> [k \in DOMAIN F.header |-> F.rows[r][perm[k]]]]]
